@@ -331,7 +331,7 @@ class C02(Prop):
         return sorted(seen)
 
     # ------------------------------------------------------------------ oracle
-    KINDS = ["whole", "whole", "component", "tuple", "second", "grad", "cd", "whole", "directed", "cdgrad", "gradcomp", "whole"]
+    KINDS = ["whole", "whole", "component", "tuple", "second", "grad", "cd", "whole", "directed", "cdgrad", "gradcomp", "cd2"]
 
     def fields(self, rng, G, exprs, extra=()):
         import ufl
@@ -364,6 +364,7 @@ class C02(Prop):
         pool = [c for cs in C.values() for c in cs]
         dirs = {}        # coefficient -> direction callable factory (given the field mapping)
         cdmap = None
+        moves2 = None
         if kind == "directed":
             F = self.directed(rng, G, 8 * rng.randrange(12 * 40) + 2)
             F = ufl.as_ufl(F)
@@ -486,6 +487,12 @@ class C02(Prop):
                 dF = ufl.derivative(F, w, v, coefficient_derivatives={f: c})
                 moves = [(w, lambda m, v=v: m[v]), (f, lambda m, c=c, v=v, f=f: Contract(m[c], m[v], f.ufl_shape))]
                 extra = [v, c, w]
+                if kind == "cd2":
+                    # two derivative nodes with the same coefficient and direction but DIFFERENT user relations, expanded in one call
+                    c2 = ufl.Coefficient(ufl.FunctionSpace(G.mesh, LagrangeElement(cell, 2, cshape)))
+                    dF = dF + 2 * ufl.derivative(F, w, v, coefficient_derivatives={f: c2})
+                    moves2 = [(w, lambda m, v=v: m[v]), (f, lambda m, c2=c2, v=v, f=f: Contract(m[c2], m[v], f.ufl_shape))]
+                    extra = [v, c, c2, w]
                 Fbase = F
                 from ufl.classes import Grad
                 has_grad_f = any(isinstance(o, Grad) and o.ufl_operands[0] == f for o in ufl.corealg.traversal.unique_pre_traversal(expand_derivatives(F)))
@@ -508,6 +515,19 @@ class C02(Prop):
         want, ok = dc.fd(fun)
         if not ok or at_kink(fun):
             return ("nonsmooth", desc, [])
+        if moves2 is not None:
+            dirf2 = [(w, mk(m)) for w, mk in moves2]
+
+            def fun2(h):
+                m2 = dict(m)
+                for w, d in dirf2:
+                    m2[w] = dc.Combo(m[w], d, h)
+                return dc.evaluate(Fx, x0, m2)
+            want2, ok2 = dc.fd(fun2)
+            if not ok2 or at_kink(fun2):
+                return ("nonsmooth", desc, [])
+            want = [a + 2 * b for a, b in zip(want, want2)]
+            desc += "; sum of two derivative nodes with different relations df/dw in one expansion"
         problems = []
         if tuple(X.ufl_shape) != tuple(Fx.ufl_shape):
             problems.append("shape %s, the differentiated expression has shape %s" % (tuple(X.ufl_shape), tuple(Fx.ufl_shape)))
